@@ -255,6 +255,34 @@ Definition IOcorr (c : IOcase) : bool :=
                        Ok (canon_rtg tab g)) out
   end.
 
+(* the same oracle with the recorded finding F19 excused and nothing else: a blank-filled tier in
+   which every interval is below the threshold may come out empty *)
+Definition all_short (minT maxT : Z) (thr : option (Z * Z)) (t : dtier) : bool :=
+  match thr with
+  | Some th => match fill_blanks minT maxT (dsort (d_ents t)) with
+               | Ok l => forallb (fun e => below th (dlen e)) l
+               | Err _ => false end
+  | None => false
+  end.
+
+Definition prep_oracle_f19 (blanks : bool) (mn mx : option Z) (thr : option (Z * Z)) (g : dtg) (out : res dtg) : bool :=
+  let minT := match mn with Some a => a | None => dg_xmin g end in
+  let maxT := match mx with Some b => b | None => dg_xmax g end in
+  match out with
+  | Ok g' =>
+      (dg_xmin g' =? minT) && (dg_xmax g' =? maxT) && (length (dg_tiers g') =? length (dg_tiers g))%nat
+      && forallb (fun tt => if blanks && d_isint (fst tt) && all_short minT maxT thr (fst tt)
+                            then match d_ents (snd tt) with [] => text_eqb (d_name (snd tt)) (d_name (fst tt)) | _ => false end
+                            else prep_tier_oracle blanks minT maxT thr (fst tt) (snd tt)) (combine (dg_tiers g) (dg_tiers g'))
+  | Err _ => prep_oracle blanks mn mx thr g out
+  end.
+
+Definition C04oracle_f19 (c : IOcase) : bool :=
+  match c with
+  | PrepTg b mn mx th g out => prep_oracle_f19 b mn mx th g out
+  | _ => true
+  end.
+
 Definition C04oracle (c : IOcase) : bool :=
   match c with
   | PrepTg b mn mx th g out => prep_oracle b mn mx th g out
